@@ -15,12 +15,17 @@ talk about.
 
 ## The synchrony assumption in untimed form (`SyncOrdered`)
 
-Real-time statement: messages between honest participants take at most `Δ`, all honest participants start
-the instance within `Δ` of each other, and the timeout of a phase is `2Δ` (times a multiplier ≥ 1 for
-QUALITY) after the phase was entered. Then by induction on the phases every honest participant enters phase
-`X` of round 0 at most `Δ` after the first one does, so its `X` message reaches everybody at most `2Δ`
-after the *first* participant entered `X`, hence before any participant's `X` timer (armed at its own entry
-`≥` first entry, firing `≥ 2Δ` later) fires. What the instance can observe of this is only the *order* of
+Real-time statement: messages between honest participants take less than `Δ`, all honest participants start
+the instance within `Δ` of each other, and the timeout of a phase is at least `2Δ` after the phase was entered.
+`F3/Model/NetTimed.lean` states this on the timestamps the events carry (`TimedSync`) and
+`C02.timed_sync_ordered` proves that it implies the condition below for every chain with a tipset beyond the
+base (what holds is not "everybody enters a phase within `Δ` of the first" — a late starter can lag by `2Δ` — but:
+a node enters PREPARE / COMMIT at time `e` only after a strong quorum has broadcast the previous phase's vote by
+`e`; those members leave their phase before `e + Δ` and their next votes arrive before `e + 2Δ`, so a node whose
+PREPARE or COMMIT timer expires has already left that phase, and a node whose QUALITY timer expires holds every
+QUALITY vote; a delay of exactly `Δ` against a timeout of exactly `2Δ` is a genuine race in the code, and for a
+base-only chain the implication is refuted — QUALITY then ends by timer only).
+What the instance can observe of this is only the *order* of
 events at each node: **whenever node `p` evaluates a phase timeout as expired (`phaseTimeoutElapsed now`)
 while in QUALITY / PREPARE / COMMIT of round 0, it has already been handed the message of that phase of
 every honest node.** That is `SyncOrdered`. Note that `gpbft.go` evaluates the timeout not only in
